@@ -36,7 +36,7 @@ ASSUMPTIONS = E1_ASSUMPTIONS + [
     "directory (deeper ones make 'the subdirectories of the input' self-referential)",
     "worlds where 'directly contains no .cmake file' differs before/after pattern exclusion are judged by the closure "
     "and schedule-independence clauses only, not by set equality with the reference walk"]
-PROBES = ["depth_ge_3", "empty_dir", "dir_without_cmake", "mixed_case_ext", "nonrecursive_with_subdirs",
+PROBES = ["symlinked_cmake_file", "depth_ge_3", "empty_dir", "dir_without_cmake", "mixed_case_ext", "nonrecursive_with_subdirs",
           "auto_exclude_off", "out_nested", "out_abs", "out_rel", "dotted_or_dashed_name", "patterns_present",
           "fault_fired_open_w", "fault_fired_write", "fault_fired_close_w", "fault_fired_mkdir", "fault_fired_open_r",
           "fault_run_failed", "fault_run_survived", "single_file_compared", "crash_then_rerun",
@@ -59,6 +59,7 @@ def swarm(rng, tier):
         "max_patterns": rng.choice([0, 1, 3]),
         "single": True,
         "duplicates": rng.random() < 0.3,
+        "symlinks": rng.random() < 0.35,
     }
 
 
@@ -119,6 +120,23 @@ def world_strategy(cfg, out_kinds=("sibling", "sibling", "abs", "nested", "rel_u
                 site.tree["zz_out-notes/n9.cmake"] = "set(zqsibling 1)\n"
         else:
             out = posixpath.join(site.rel, "out") if site.rel else "out"
+        if cfg.get("symlinks") and draw(st.booleans()):
+            # CMake files that are symbolic links to a module kept outside the tree (follow_symlinks only speaks about
+            # linked *directories*): a directory whose only CMake file is such a link, possibly below a directory
+            # without CMake files, and / or a link next to ordinary files
+            shared = "#[[[\n# Shared helper.\n#]]\nfunction(zq_shared a b)\nendfunction()\n"
+            files["elsewhere/shared_src.cmake"] = shared
+            for d in draw(st.lists(st.sampled_from(["lnk", "lnk/deeper", "", "zl.d"]), unique=True, min_size=1, max_size=2)):
+                parts = d.split("/") if d else []
+                for i in range(1, len(parts) + 1):
+                    anc = "/".join(parts[:i])
+                    if anc not in site.tree:
+                        site.tree[anc] = None
+                        files[posixpath.join(site.proj, anc)] = None
+                rel = posixpath.join(d, "zl.cmake")
+                if rel not in site.tree:
+                    site.tree[rel] = shared
+                    files[posixpath.join(site.proj, rel)] = {"symlink": "{BASE}/elsewhere/shared_src.cmake"}
         prefix = draw(st.sampled_from([None, None] + PREFIXES + (["acme\\cmake"] if cfg.get("backslash_names") else [])))
         rst = {}
         if cfg.get("rst_opts"):
@@ -259,6 +277,8 @@ def tree_probes(ctx, spec, tree, walk):
         ctx.probes["dotted_or_dashed_name"] += 1
     if spec["patterns"]:
         ctx.probes["patterns_present"] += 1
+    if any(isinstance(c, dict) for c in tree.values()):
+        ctx.probes["symlinked_cmake_file"] += 1
     ctx.probes["out_" + {"sibling": "rel", "rel_up": "rel", "abs": "abs", "nested": "nested"}[spec["out_kind"]]] += 1
 
 
